@@ -30,6 +30,20 @@ RULES = {
 def run(ck, m):
     _run(ck, m)
     stamp_rule(ck, m)
+    # the store compares and writes under one write lock (the rule is C02.a's, evaluated here for the store only): with the
+    # entry read in an earlier section a concurrent older write is checked against a stale copy, is accepted without a
+    # VersionError — so the Newer resolution never sees it — and the stored version goes back
+    from nl import locks
+    from props.C02 import store_fn
+    ck.rule('C19.i', 'the store reads the entry it compares with and writes the new one in a single critical section of Database.map '
+                     '(otherwise a concurrent write is accepted against a stale entry and never reaches the Newer resolution)')
+    sb_ = store_fn(m)
+    res_ = locks.rmw_findings(m, sb_, 'map')
+    ck.ob('C19.i', short(sb_.id), 'compare-and-store-in-one-section', not res_,
+          'the version comparison and the insert are in one critical section' if not res_ else
+          '%s reads the entry in %s (%s) and writes it in a later section (%s): two concurrent writers both compare with the same old '
+          'entry, the second insert is accepted without a VersionError, the Newer resolution is never asked and the version goes back'
+          % (short(sb_.id), res_[0]['first_fn'], res_[0]['first'], res_[0]['second']), '%s:%s' % (sb_.file, sb_.line))
     # the return table of next_version is evaluated by C13.d; its verdict is repeated here because the Newer re-apply depends on it
     from nl import report
     from props import C13
